@@ -5,13 +5,8 @@ use vstd::std_specs::iter::IteratorSpec;
 verus! {
 
 // ---------------------------------------------------------------- specification vocabulary
-/// accessors for ByteDiff's private fields (closed: the struct is opaque outside this module)
-pub closed spec fn bd_op(d: ByteDiff) -> ByteDiffOp { d.op }
-pub closed spec fn bd_data(d: ByteDiff) -> Seq<u8> { d.data@ }
+//#include ../_shared/bytediff.inc.rs
 spec fn seg_len(d: ByteDiff) -> int { bd_data(d).len() as int }
-/// std: <[T]>::to_vec returns a vector of the same length whose elements are clones of the slice's elements
-pub assume_specification<T: Clone>[ <[T]>::to_vec ](s: &[T]) -> (r: Vec<T>)
-    ensures r@.len() == s@.len(), forall|i: int| 0 <= i < s@.len() ==> cloned::<T>(#[trigger] s@[i], r@[i]);
 /// bytes of the OLD text covered by the first n segments (Equal + Delete)
 spec fn old_upto(diffs: Seq<ByteDiff>, n: int) -> int
     decreases n
@@ -86,46 +81,6 @@ proof fn lemma_catalog_wf(diffs: Seq<ByteDiff>, n: int)
     }
 }
 
-//#item file=src/authorship/imara_diff_utils.rs kind=enum name=ByteDiffOp derive=Clone,Copy,PartialEq,Eq
-#[derive(Clone, Copy, PartialEq, Eq)]
-pub enum ByteDiffOp {
-    Equal,
-    Delete,
-    Insert,
-}
-//#end
-//#item file=src/authorship/imara_diff_utils.rs kind=struct name=ByteDiff
-pub struct ByteDiff {
-    op: ByteDiffOp,
-    data: Vec<u8>,
-}
-//#end
-impl ByteDiff {
-//#item file=src/authorship/imara_diff_utils.rs kind=fn name=new impl="ByteDiff"
-    pub fn new(op: ByteDiffOp, data: &[u8]) -> (r_: Self)
-    //@     ensures bd_op(r_) == op, bd_data(r_) == data@,
-    {
-        ByteDiff {
-            op,
-            data: data.to_vec(),
-        }
-    }
-//#end
-//#item file=src/authorship/imara_diff_utils.rs kind=fn name=op impl="ByteDiff"
-    pub fn op(&self) -> (r_: ByteDiffOp)
-    //@     ensures r_ == bd_op(*self),
-    {
-        self.op
-    }
-//#end
-//#item file=src/authorship/imara_diff_utils.rs kind=fn name=data impl="ByteDiff"
-    pub fn data(&self) -> (r_: &[u8])
-    //@     ensures r_@ == bd_data(*self),
-    {
-        &self.data
-    }
-//#end
-}
 //#item file=src/authorship/attribution_tracker.rs kind=struct name=Deletion
 pub(crate) struct Deletion {
     pub(crate) start: usize,
